@@ -143,3 +143,86 @@ SPECS["C14"] = {
     "outside": ["more than two Extend calls", "extension detectors that are not pure"],
     "assumptions": ["sync.RWMutex is a no-op stub in the single-threaded executor (locking is C06)"],
 }
+
+SPECS["C05"] = {
+    "explanation": "The real Detect / DetectReader / DetectFile / SetLimit with io.ReadFull, io.ReadAtLeast and io.ReadAll executed from source over a harness "
+                   "reader whose chunk sizes, EOF-with-data behaviour and error injection point are nondeterministic; detectors are stubbed to record the "
+                   "(header, limit) the tree walk receives, and the two headers are compared byte-wise by the solver.",
+    "units": [
+        {"name": "reader", "pkg": "mimetype", "harnesses": ["HC05Reader"], "quick_args": fix(maxlen=4), "thorough_args": fix(maxlen=6), "quick_shards": 32, "thorough_shards": 64},
+        {"name": "file", "pkg": "mimetype", "harnesses": ["HC05File"], "quick_args": fix(maxlen=3), "thorough_args": fix(maxlen=5), "quick_shards": 16, "thorough_shards": 32},
+    ],
+    "must_reach": ["end", "assert:same-header-bytes", "assert:error-is-surfaced", "assert:reader-consumes-at-most-limit", "assert:open-error-yields-errMIME", "assert:file-closed"],
+    "bounds": {"quick": {"data": "<= 4 bytes (symbolic), all chunk compositions, EOF with/without data, error at every offset with/without data, limits {0,1..6,3072}"},
+               "thorough": {"data": "<= 6 bytes, limits {0,1..8,3072}"}},
+    "outside": ["readers that violate the io.Reader contract", "real file-system behaviour (os.Open/Read/Close are contract stubs)", "limits outside the enumerated set"],
+    "assumptions": ["equal (header, limit) implies equal result (C04)"],
+    "stubs": ["os.Open", "(*os.File).Read", "(*os.File).Close"],
+}
+
+SPECS["C04"] = {
+    "explanation": "Purity of detection as four obligations, each from an arbitrary or adversarial pre-state: (1) json.Parse from a fresh and from an arbitrary "
+                   "recycled parser state (symbolic fields) gives identical results; (2) the CSV/TSV check with a fresh and with a dirtied pooled bufio.Reader "
+                   "gives identical verdicts; (3) Detect hands the walk exactly the first limit bytes of the caller's slice (C05 harness, asserted there too); "
+                   "(4) no detector, charset sniffer or entry point writes to the caller's buffer (write watch on the input cells in the C01 harnesses and in Detect).",
+    "units": [
+        {"name": "jsonpool", "pkg": "json", "harnesses": ["HC04Pool"], "quick_args": fix(maxlen=4), "thorough_args": fix(maxlen=6), "quick_shards": 32, "thorough_shards": 64},
+        {"name": "csvpool", "pkg": "magic", "harnesses": ["HC04CsvPool"], "quick_args": fix(maxlen=4), "thorough_args": fix(maxlen=6), "quick_shards": 32, "thorough_shards": 64},
+        {"name": "watch", "pkg": "mimetype", "harnesses": ["HC04Watch"], "quick_args": fix(maxlen=2), "thorough_args": fix(maxlen=3), "quick_shards": 32, "thorough_shards": 64},
+        {"name": "slicing", "pkg": "mimetype", "harnesses": ["HC05Reader"], "quick_args": fix(maxlen=3), "thorough_args": fix(maxlen=4), "quick_shards": 16, "thorough_shards": 32},
+    ],
+    "must_reach": ["end", "assert:same-parsed", "assert:same-query-satisfied", "assert:same-verdict-with-recycled-reader", "assert:caller-buffer-not-written", "assert:detect-slices-to-limit"],
+    "bounds": {"quick": {"jsonpool": "raw <= 4 bytes, 4 query kinds, recycled state: symbolic ib/firstToken/querySatisfied/failed, path stack height 0..3 (cap 4) with symbolic keys",
+                         "csvpool": "raw <= 4 bytes, both delimiters, 4 dirtying recipes with symbolic junk", "watch": "Detect on <= 2 symbolic bytes plus 2 symbolic bytes of spare capacity, limits {0,1,2,3072}"},
+               "thorough": {"jsonpool": "<= 6 bytes", "csvpool": "<= 6 bytes", "watch": "<= 3 bytes"}},
+    "outside": ["state inside stubbed functions (sync.Pool is modelled as: Get returns what was Put, else New)", "inputs longer than the bounds"],
+    "assumptions": ["sync.Pool contract stub"],
+    "stubs": ["(*sync.Pool).Get", "(*sync.Pool).Put"],
+}
+
+SPECS["C17"] = {
+    "explanation": "Monotonicity in the read limit as one inductive step over the header length n, for each of the binary root formats executed from its real "
+                   "code: accepted at n-1 bytes implies some binary root format accepts at n bytes (arbitrary uint32 limits on both sides). The disjunction "
+                   "over the other formats is evaluated only on paths where the format itself lets go (ttf -> mdb/accdb).",
+    "units": [
+        {"name": "step", "pkg": "mimetype", "harnesses": ["HC17Step"], "quick_args": fix(tier=0) + ["-frontier-mult", "2"], "thorough_args": fix(tier=1) + ["-frontier-mult", "2"], "fix_each": {"format": 97}, "heavy_values": {22: 16, 53: 8, 41: 3, 44: 3}, "quick_shards": 1, "thorough_shards": 4},
+    ],
+    "must_reach": ["end", "same-format-still-matches", "handover", "assert:longer-header-still-binary"],
+    "bounds": {"quick": {"n": "1..64 and every length within a few bytes of each length guard up to 4194 (list in harness/mimetype/h_c01.go); OLE: reduced list"},
+               "thorough": {"n": "every n in 1..4300 (OLE formats: reduced list)"}},
+    "outside": ["headers longer than 4300 bytes", "sub-formats below the root children (they only refine a binary parent)", "extensions"],
+    "assumptions": ["tree walk semantics (C03)", "the limit passed to detectors is arbitrary (superset of what Detect passes)"],
+}
+
+SPECS["C18"] = {
+    "explanation": "The real magic.Tar / tarParseOctal / tarChksum on a fully symbolic 512-byte block: under the (linear) assumption that the checksum field spells the "
+                   "unsigned sum in one of the writer spellings, the detector accepts; after substituting any other value at a position outside the field it rejects. "
+                   "The obligations contain 512-term sums; they are emitted over Int (interval analysis proves no wrap) because bit-vector back ends do not terminate on them.",
+    "units": [
+        {"name": "valid", "pkg": "magic", "harnesses": ["HC18Valid"], "args": ["-frontier-mult", "1"], "quick_shards": 8, "thorough_shards": 16},
+        {"name": "corrupt", "pkg": "magic", "harnesses": ["HC18Corrupt"], "args": ["-frontier-mult", "1"], "quick_args": fix(tier=0) + ["-solver-timeout-ms", "120000"], "thorough_args": fix(tier=1) + ["-solver-timeout-ms", "300000"], "quick_shards": 16, "thorough_shards": 16},
+    ],
+    "must_reach": ["end", "assert:writer-header-accepted", "assert:corrupted-header-rejected"],
+    "bounds": {"quick": {"valid": "all 256^504 block contents x 4 checksum spellings x 0..8 trailing bytes", "corrupt": "spelling 0: 45 positions (every 16th and all field boundaries); other spellings: positions 0,147,156,511; all 255 other values"},
+               "thorough": {"corrupt": "spelling 0: all 504 positions outside the checksum field; other spellings: 67 positions"}},
+    "outside": ["checksum spellings other than the four listed", "headers whose name contains the Gentoo gpkg marker (excluded by the detector by design)", "tree position of tar (C03: after exe/elf/ar)"],
+    "assumptions": ["writer conformance = the checksum field spells the unsigned byte sum with the field taken as spaces"],
+}
+
+SPECS["C13"] = {
+    "explanation": "magic.Csv/Tsv through the real encoding/csv + bufio (executed, not stubbed), magic.NdJSON through the real scanner, and dropLastLine: "
+                   "rectangular tables and value-per-line streams with symbolic cell/scalar bytes stay detected at every cut after the second line; conversely a "
+                   "positive verdict on arbitrary bytes over a stated alphabet implies the line structure the property demands (reference line splitter in the harness).",
+    "units": [
+        {"name": "table", "pkg": "magic", "harnesses": ["HC13Table"], "quick_shards": 32, "thorough_shards": 64, "quick_args": ["-max-instr", "20000000"], "thorough_args": ["-max-instr", "20000000"]},
+        {"name": "svconv", "pkg": "magic", "harnesses": ["HC13SvConverse"], "quick_args": fix(maxlen=6), "thorough_args": fix(maxlen=8), "quick_shards": 32, "thorough_shards": 64},
+        {"name": "ndconv", "pkg": "magic", "harnesses": ["HC13NdConverse"], "quick_args": fix(maxlen=5), "thorough_args": fix(maxlen=7), "quick_shards": 32, "thorough_shards": 64},
+        {"name": "ndstream", "pkg": "magic", "harnesses": ["HC13NdStream"], "quick_shards": 32, "thorough_shards": 64},
+    ],
+    "must_reach": ["end", "assert:table-survives-cut", "assert:every-line-has-the-same-field-count", "assert:complete-line-is-a-json-value", "assert:stream-survives-cut"],
+    "bounds": {"quick": {"table": "2..3 rows x 2..3 columns, cells of 1..2 symbolic bytes, LF/CRLF per line, with/without final newline, every limit from end of line 2 to len+1",
+                         "svconv": "<= 6 bytes over {, TAB LF CR # a 1 space}", "ndconv": "<= 5 bytes over {[ ] { } \" : , 1 a space LF CR}", "ndstream": "2..3 lines from 6 value templates with symbolic digits"},
+               "thorough": {"svconv": "<= 8 bytes", "ndconv": "<= 7 bytes"}},
+    "outside": ["quoted fields (LazyQuotes semantics are not re-specified)", "cells longer than 2 bytes", "inputs outside the stated alphabets for the converse"],
+    "assumptions": [],
+}
